@@ -22,10 +22,11 @@ Val.declare('D', ('val_dk', IntSort()))          # dict value (immutable snapsho
 Val.declare('T', ('val_tk', IntSort()))          # tuple/list value: tup_len(tk), tup_item(tk, i)
 Val.declare('EC', ('val_ek', IntSort()))         # block.EventCond(etrue, efalse)  (frozen dataclass)
 Val.declare('Goto', ('val_gs', StringSort()))    # fsm.Goto(state)                 (frozen dataclass)
+Val.declare('FS', ('val_fk', IntSort()))         # frozenset/set value: members fs_c(fk) (indexed by normalised key)
 Val = Val.create()
 # short python-side names for the accessors (the SMT-LIB names carry a prefix so that they cannot clash with
 # constants such as `v`, `i`, `k` in exported queries)
-for _n in ('b', 'i', 'r', 's', 'ref', 'k', 'dk', 'tk', 'ek', 'gs'):
+for _n in ('b', 'i', 'r', 's', 'ref', 'k', 'dk', 'tk', 'ek', 'gs', 'fk'):
     setattr(Val, _n, getattr(Val, 'val_' + _n))
 
 _opt_cache = {}
@@ -60,6 +61,8 @@ mkD = Function('mkD', DictS, IntSort())
 tup_len = Function('tup_len', IntSort(), IntSort())
 tup_item = Function('tup_item', IntSort(), IntSort(), Val)
 tup_is_tuple = Function('tup_is_tuple', IntSort(), BoolSort())    # tuple (True) or list (False)
+fs_c = Function('fs_c', IntSort(), ValSet)
+mkFS = Function('mkFS', ValSet, IntSort())
 ec_true = Function('ec_true', IntSort(), Val)
 ec_false = Function('ec_false', IntSort(), Val)
 
@@ -68,6 +71,7 @@ opq_truthy = Function('opq_truthy', IntSort(), BoolSort())
 opq_eq = Function('opq_eq', Val, Val, BoolSort())                 # not assumed reflexive (NaN-like values exist)
 opq_hashable = Function('opq_hashable', IntSort(), BoolSort())
 dict_nonempty = Function('dict_nonempty', IntSort(), BoolSort())
+fs_nonempty = Function('fs_nonempty', IntSort(), BoolSort())
 class_of = Function('class_of', IntSort(), IntSort())             # heap object -> class id
 subclass = Function('subclass', IntSort(), IntSort(), BoolSort())  # class id lattice (pinned by spec axioms)
 
@@ -108,7 +112,8 @@ def truthy(v):
            If(Val.is_Opq(v), opq_truthy(Val.k(v)),
            If(Val.is_D(v), dict_nonempty(Val.dk(v)),
            If(Val.is_T(v), tup_len(Val.tk(v)) > 0,
-           Or(Val.is_Obj(v), Val.is_EC(v), Val.is_Goto(v)))))))))      # None, UNDEF -> False
+           If(Val.is_FS(v), fs_nonempty(Val.fk(v)),
+           Or(Val.is_Obj(v), Val.is_EC(v), Val.is_Goto(v))))))))))      # None, UNDEF -> False
 
 
 def py_eq(a, b):
@@ -120,6 +125,16 @@ def py_eq(a, b):
            If(And(Val.is_EC(a), Val.is_EC(b)),
               And(ec_true(Val.ek(a)) == ec_true(Val.ek(b)), ec_false(Val.ek(a)) == ec_false(Val.ek(b))),
               a == b)))))
+
+
+def norm_key(v):
+    """hash/== normalisation of a set member or dict key: 1 == 1.0 == True are the same key"""
+    return If(is_num(v), Val.R(num(v)), v)
+
+
+def fs_member(fk, v):
+    """v in <frozenset fk> for a hashable v"""
+    return Select(fs_c(fk), norm_key(v))
 
 
 def hashable(v):
